@@ -10,9 +10,25 @@ coq/Generated/TxsizesConsts.v.
     output (`outputCount`) or over `len(txOuts)` only;
   * the input counts of the initial size guess of NewUnsignedTransaction.
 
-Anything that is not recognised raises, so that the check reports a broken
-obligation instead of silently keeping an old table."""
-import os, re
+Two paths produce the same facts:
+
+  PRIMARY  - reading the source shape (regular expressions over the three
+             files);
+  FALLBACK - when the shape is not recognised (e.g. after a behaviour
+             preserving refactor): PROBING the code built from the repository
+             through harness/cmd/extract-c07 (the harness module resolves the
+             btcwallet packages to `repo`).  Exported constants are printed;
+             every other fact is determined by a small fixed set of calls of
+             EstimateVirtualSize / FeeForSerializeSize / NewUnsignedTransaction
+             (see probe_facts for the argument set and why it determines each
+             fact), and the fitted estimate/fee formulas are then compared with
+             the functions on a fixed grid of ~7 600 argument tuples; a
+             disagreement makes the probe path fail.
+
+The Generated file says in a comment which path produced it
+(`facts source: ...`).  Only if both paths fail does main() raise, so that the
+check reports a broken obligation instead of silently keeping an old table."""
+import hashlib, itertools, json, os, re, shutil, subprocess
 
 
 class ExtractError(Exception):
@@ -80,7 +96,36 @@ def call_args(text, callee):
     return out
 
 
-def main(repo, outdir, write_if_changed):
+NEED = ["RedeemP2PKHSigScriptSize", "P2PKHPkScriptSize", "RedeemP2PKHInputSize", "P2PKHOutputSize",
+        "P2WPKHPkScriptSize", "P2WPKHOutputSize", "RedeemP2WPKHScriptSize", "RedeemP2WPKHInputSize",
+        "P2TRPkScriptSize", "P2TROutputSize", "RedeemP2TRScriptSize", "RedeemP2TRInputSize",
+        "NestedP2WPKHPkScriptSize", "RedeemNestedP2WPKHScriptSize", "RedeemNestedP2WPKHInputSize",
+        "RedeemP2WPKHInputWitnessWeight", "RedeemP2TRInputWitnessWeight"]
+
+NAMES = {
+    "RedeemP2PKHSigScriptSize": "redeem_p2pkh_sig_script_size",
+    "P2PKHPkScriptSize": "p2pkh_pk_script_size",
+    "RedeemP2PKHInputSize": "redeem_p2pkh_input_size",
+    "P2PKHOutputSize": "p2pkh_output_size",
+    "P2WPKHPkScriptSize": "p2wpkh_pk_script_size",
+    "P2WPKHOutputSize": "p2wpkh_output_size",
+    "RedeemP2WPKHScriptSize": "redeem_p2wpkh_script_size",
+    "RedeemP2WPKHInputSize": "redeem_p2wpkh_input_size",
+    "P2TRPkScriptSize": "p2tr_pk_script_size",
+    "P2TROutputSize": "p2tr_output_size",
+    "RedeemP2TRScriptSize": "redeem_p2tr_script_size",
+    "RedeemP2TRInputSize": "redeem_p2tr_input_size",
+    "NestedP2WPKHPkScriptSize": "nested_p2wpkh_pk_script_size",
+    "RedeemNestedP2WPKHScriptSize": "redeem_nested_p2wpkh_script_size",
+    "RedeemNestedP2WPKHInputSize": "redeem_nested_p2wpkh_input_size",
+    "RedeemP2WPKHInputWitnessWeight": "redeem_p2wpkh_input_witness_weight",
+    "RedeemP2TRInputWitnessWeight": "redeem_p2tr_input_witness_weight",
+}
+
+
+# ------------------------------------------------------------------ primary path: source shape
+
+def source_facts(repo):
     p_size = os.path.join(repo, "wallet", "txsizes", "size.go")
     p_rules = os.path.join(repo, "wallet", "txrules", "rules.go")
     p_author = os.path.join(repo, "wallet", "txauthor", "author.go")
@@ -89,12 +134,7 @@ def main(repo, outdir, write_if_changed):
     author = strip_comments(open(p_author).read())
 
     consts = const_block_values(size, p_size)
-    need = ["RedeemP2PKHSigScriptSize", "P2PKHPkScriptSize", "RedeemP2PKHInputSize", "P2PKHOutputSize",
-            "P2WPKHPkScriptSize", "P2WPKHOutputSize", "RedeemP2WPKHScriptSize", "RedeemP2WPKHInputSize",
-            "P2TRPkScriptSize", "P2TROutputSize", "RedeemP2TRScriptSize", "RedeemP2TRInputSize",
-            "NestedP2WPKHPkScriptSize", "RedeemNestedP2WPKHScriptSize", "RedeemNestedP2WPKHInputSize",
-            "RedeemP2WPKHInputWitnessWeight", "RedeemP2TRInputWitnessWeight"]
-    for n in need:
+    for n in NEED:
         if n not in consts:
             raise ExtractError("%s: constant %s not found" % (p_size, n))
 
@@ -119,6 +159,11 @@ def main(repo, outdir, write_if_changed):
         vcc = True
     else:
         raise ExtractError("%s: EstimateVirtualSize: output-count compact-size not recognised: %s" % (p_size, vargs[1]))
+    # the per-kind terms of the estimate, as the model writes them
+    for term in ["numP2PKHIns*RedeemP2PKHInputSize", "numP2WPKHIns*RedeemP2WPKHInputSize",
+                 "numP2TRIns*RedeemP2TRInputSize", "numNestedP2WPKHIns*RedeemNestedP2WPKHInputSize"]:
+        if term not in re.sub(r"\s+", "", base_expr):
+            raise ExtractError("%s: EstimateVirtualSize: term %s not found in baseSize" % (p_size, term))
     m = re.search(r"return\s+baseSize\s*\+\s*\(witnessWeight\s*\+\s*(\d+)\)\s*/\s*blockchain\.WitnessScaleFactor", body)
     if not m:
         raise ExtractError("%s: EstimateVirtualSize: return expression not recognised" % p_size)
@@ -148,46 +193,207 @@ def main(repo, outdir, write_if_changed):
                   r"numNestedP2WPKHIns\s+int\s*,\s*txOuts\s+\[\]\*wire\.TxOut\s*,\s*changeScriptSize\s+int\s*\)", size)
     if not m:
         raise ExtractError("%s: EstimateVirtualSize: parameter list not recognised" % p_size)
+    return dict(consts={n: consts[n] for n in NEED}, wround=wround, relay=relay, divisor=divisor, vcc=vcc,
+                vcc_note="EstimateVirtualSize takes the compact-size of the output count over `%s`" % vargs[1],
+                init=init)
 
-    def snake(n):
-        return re.sub(r"(?<=[a-z0-9])(?=[A-Z])|(?<=[A-Z0-9])(?=[A-Z][a-z])", "_", n).lower()
 
+# ------------------------------------------------------------------ fallback path: probing the built code
+
+MAX_SATOSHI = 2100000000000000
+
+
+def _vi(n):
+    return 1 if n < 253 else 3 if n <= 0xffff else 5 if n <= 0xffffffff else 9
+
+
+def _est_model(P, c, nout, out_len, chg):
+    """the shape of Fee.v's est_vsize_gen with parameters P"""
+    k, t, a, b = c
+    chg_out = 8 + _vi(chg) + chg if chg > 0 else 0
+    oc = nout + 1 if chg > 0 else nout
+    base = (8 + _vi(k + t + a + b) + _vi(oc if P["vcc"] else nout) + k * P["C1"] + a * P["C2"] + t * P["C3"] + b * P["C4"]
+            + nout * (8 + _vi(out_len) + out_len) + chg_out)
+    w = a + b + t
+    ww = 2 + _vi(w) + a * P["W"] + t * P["WT"] + b * P["W"] if w > 0 else 0
+    return base + (ww + P["R"]) // 4
+
+
+def _fee_model(D, rate, size):
+    q = rate * size // D
+    if q == 0 and rate > 0:
+        q = rate
+    if q < 0 or q > MAX_SATOSHI:
+        q = MAX_SATOSHI
+    return q
+
+
+def _run_probe(repo, request):
+    """build harness/cmd/extract-c07 against `repo` and run it on the request"""
+    import vlib
+    with vlib.Lock("go"):
+        os.makedirs(os.path.join(vlib.WORK, "bin"), exist_ok=True)
+        modflag = []
+        if repo == "/repo":
+            shutil.copyfile(os.path.join(repo, "go.sum"), os.path.join(vlib.HARNESS, "go.sum"))
+        else:
+            alt = os.path.join(vlib.WORK, "extract_c07_%s.mod" % hashlib.sha1(repo.encode()).hexdigest()[:8])
+            txt = open(os.path.join(vlib.HARNESS, "go.mod")).read().replace("=> /repo", "=> " + repo)
+            open(alt, "w").write(txt)
+            shutil.copyfile(os.path.join(repo, "go.sum"), alt[:-4] + ".sum")
+            modflag = ["-modfile=" + alt]
+        exe = os.path.join(vlib.WORK, "bin", "extract-c07")
+        p = subprocess.run(["go", "build"] + modflag + ["-o", exe, "./cmd/extract-c07"], cwd=vlib.HARNESS,
+                           env=vlib.GOENV, stdout=subprocess.PIPE, stderr=subprocess.PIPE, text=True, timeout=900)
+        if p.returncode != 0:
+            raise ExtractError("probe: harness/cmd/extract-c07 does not build against %s: %s" % (repo, (p.stdout + p.stderr)[-1500:]))
+    p = subprocess.run([exe], input=json.dumps(request), cwd=vlib.WORK, stdout=subprocess.PIPE, stderr=subprocess.PIPE,
+                       text=True, timeout=300)
+    if p.returncode != 0:
+        raise ExtractError("probe: extract-c07 failed: %s" % p.stderr[-1500:])
+    return json.loads(p.stdout)
+
+
+def probe_facts(repo):
+    """Facts determined by running the code.
+
+    Notation: E(c; n, chg) = EstimateVirtualSize(c = (p2pkh, p2tr, p2wpkh, nested), n outputs with 22-byte scripts,
+    change script size chg); F(r, s) = FeeForSerializeSize(r, s); model shape (Fee.v, est_vsize_gen):
+      E = 8 + vi(#in) + vi(#out [+1 if vcc and chg>0]) + k*C1 + a*C2 + t*C3 + b*C4 + outputs + change
+          + (2 + vi(a+b+t) + (a+b)*W + t*WT + R) / 4            (witness part only when a+b+t > 0)
+
+    1. exported constants: printed by the Go program.
+    2. C1 (P2PKH input size as the function uses it) = E((2,0,0,0);0,0) - E((1,0,0,0);0,0): no witness part, same
+       compact-sizes, so the difference is exactly one P2PKH input.
+    3. per-input WEIGHT of each witness kind x: w_x = E(5 of x) - E(1 of x) = 4*C_x + W_x exactly (the numerator of
+       the rounded term grows by 4*W_x, so the quotient grows by W_x; compact-sizes equal).  Only the weight is
+       observable - moving 1 byte from C_x into 4 units of W_x never changes E - so the split is taken from the
+       exported constants: W = RedeemP2WPKHInputWitnessWeight, WT = RedeemP2TRInputWitnessWeight and
+       C_x = (w_x - W_x)/4, which must be integral (nested uses W, as the model does).
+    4. R (rounding addend): the unique R in 0..7 for which the model reproduces E((0,0,a,0);0,0) for a = 0..4;
+       unique whenever W is odd because a*W then runs through all residues mod 4.
+    5. varint_counts_change: d = E((0,0,1,0);252,22) - E((0,0,1,0);252,0) = (8+1+22) + (vi(253)-vi(252) = 2 iff the
+       compact-size counts the change output); d = 33 -> true, d = 31 -> false, anything else is inconsistent.
+    6. fee_divisor D: F(10^9, 1) = floor(10^9 / D); for D < 31 622 at most one integer D has that quotient.
+    7. init_guess: NewUnsignedTransaction(one output, rate 10^6, change size 22) with a recording input source that
+       offers nothing: (first requested target - outputs) is the fee of the initial estimate; it is compared with
+       F(10^6, E(c;1,22)) for c in {0, the four single-input vectors} - five distinct values - exactly one must match.
+    8. validation: the fitted estimate/fee formulas against the functions on a fixed grid (counts in {0,1,2,5,253}^4
+       x outputs {0,1,252,253} x change {0,22,34} plus long scripts; rates x sizes incl. the zero-fee rule and the
+       MaxSatoshi clamp); any disagreement fails the probe path."""
+    est_q, keys = [], {}
+
+    def q(c, nout=0, chg=0, out_len=22):
+        k = (tuple(c), nout, chg, out_len)
+        if k not in keys:
+            keys[k] = len(est_q)
+            est_q.append(dict(c=list(c), nout=nout, out_len=out_len, chg=chg))
+        return k
+
+    unit = {"t": (0, 1, 0, 0), "a": (0, 0, 1, 0), "b": (0, 0, 0, 1)}
+    fit_keys = [q((0, 0, 0, 0)), q((1, 0, 0, 0)), q((2, 0, 0, 0))]
+    for u in unit.values():
+        fit_keys += [q(u), q(tuple(5 * x for x in u))]
+    for a in range(0, 5):
+        fit_keys.append(q((0, 0, a, 0)))
+    fit_keys += [q((0, 0, 1, 0), 252, 22), q((0, 0, 1, 0), 252, 0), q((0, 0, 1, 0), 251, 22), q((0, 0, 1, 0), 251, 0)]
+    grid = []
+    for c in itertools.product([0, 1, 2, 5, 253], repeat=4):
+        for nout in (0, 1, 252, 253):
+            for chg in (0, 22, 34):
+                grid.append(q(c, nout, chg))
+    for c in [(1, 0, 0, 0), (0, 1, 1, 1), (65536, 0, 0, 1)]:
+        for nout, chg, ol in [(3, 253, 253), (252, 300, 25), (2, 25, 70000)]:
+            grid.append(q(c, nout, chg, ol))
+    rates = [0, 1, 10, 999, 1000, 1001, 2500, 52583, 10 ** 6, 10 ** 9]
+    sizes = [0, 1, 2, 10, 122, 999, 1000, 1001, 8005, 100000, 10 ** 7, 3 * 10 ** 9]
+    fee_q = [dict(rate=10 ** 9, size=1)] + [dict(rate=r, size=s) for r in rates for s in sizes]
+    init_q = [dict(rate=10 ** 6, nout=1, out_len=22, out_val=5000, chg=22)]
+    resp = _run_probe(repo, dict(est=est_q, fee=fee_q, init=init_q))
+    E = lambda k: resp["est"][keys[k]]                       # noqa: E731
+    consts = resp["consts"]
+    for n in NEED + ["DefaultRelayFeePerKb"]:
+        if n not in consts:
+            raise ExtractError("probe: constant %s not reported" % n)
+
+    P = dict(W=consts["RedeemP2WPKHInputWitnessWeight"], WT=consts["RedeemP2TRInputWitnessWeight"])
+    P["C1"] = E(((2, 0, 0, 0), 0, 0, 22)) - E(((1, 0, 0, 0), 0, 0, 22))
+    for x, cname, wname in [("a", "C2", "W"), ("t", "C3", "WT"), ("b", "C4", "W")]:
+        u = unit[x]
+        wx = E((tuple(5 * v for v in u), 0, 0, 22)) - E((u, 0, 0, 22))
+        if (wx - P[wname]) % 4 != 0:
+            raise ExtractError("probe: weight of a %s input (%d) is not 4*size + %d" % (x, wx, P[wname]))
+        P[cname] = (wx - P[wname]) // 4
+    d = E(((0, 0, 1, 0), 252, 22, 22)) - E(((0, 0, 1, 0), 252, 0, 22))
+    d251 = E(((0, 0, 1, 0), 251, 22, 22)) - E(((0, 0, 1, 0), 251, 0, 22))
+    chg_out = 8 + 1 + 22
+    if d251 != chg_out or d not in (chg_out, chg_out + 2):
+        raise ExtractError("probe: change output adds %d at 251 outputs and %d at 252 outputs; expected %d and %d or %d"
+                           % (d251, d, chg_out, chg_out, chg_out + 2))
+    P["vcc"] = d == chg_out + 2
+    cand_R = []
+    for R in range(8):
+        P["R"] = R
+        if all(_est_model(P, (0, 0, a, 0), 0, 22, 0) == E(((0, 0, a, 0), 0, 0, 22)) for a in range(5)):
+            cand_R.append(R)
+    if len(cand_R) != 1:
+        raise ExtractError("probe: rounding addend not determined (candidates %r)" % cand_R)
+    P["R"] = cand_R[0]
+    v = resp["fee"][0]
+    cand_D = [D for D in range(1, 31622) if 10 ** 9 // D == v]
+    if len(cand_D) != 1:
+        raise ExtractError("probe: fee divisor not determined: F(10^9,1) = %d (candidates %r)" % (v, cand_D[:5]))
+    D = cand_D[0]
+    ia = resp["init"][0]
+    if ia["calls"] < 1 or "insufficient" not in ia["err"]:
+        raise ExtractError("probe: NewUnsignedTransaction did not ask the input source / unexpected result: %r" % ia)
+    fee0 = ia["first_target"] - ia["sum_out"]
+    cands = [(0, 0, 0, 0), (1, 0, 0, 0), (0, 1, 0, 0), (0, 0, 1, 0), (0, 0, 0, 1)]
+    hits = [c for c, f in zip(cands, ia["cand_fee"]) if f == fee0]
+    if len(set(ia["cand_fee"])) != 5 or len(hits) != 1:
+        raise ExtractError("probe: initial guess not determined: first fee %d, candidate fees %r" % (fee0, ia["cand_fee"]))
+    # validation of the fitted formulas
+    bad = [k for k in fit_keys + grid if _est_model(P, k[0], k[1], k[3], k[2]) != E(k)]
+    if bad:
+        k = bad[0]
+        raise ExtractError("probe: EstimateVirtualSize does not have the model's shape: %d/%d probes differ, first %r: "
+                           "function %d, fitted model %d (parameters %r)" % (
+                               len(bad), len(fit_keys) + len(grid), k, E(k), _est_model(P, k[0], k[1], k[3], k[2]), P))
+    badf = [(fq, got) for fq, got in zip(fee_q, resp["fee"]) if _fee_model(D, fq["rate"], fq["size"]) != got]
+    if badf:
+        raise ExtractError("probe: FeeForSerializeSize does not have the model's shape (divisor %d): %d/%d probes differ, "
+                           "first %r -> %d" % (D, len(badf), len(fee_q), badf[0][0], badf[0][1]))
+    cs = {n: consts[n] for n in NEED}
+    # the sizes the function actually uses
+    cs["RedeemP2PKHInputSize"], cs["RedeemP2WPKHInputSize"] = P["C1"], P["C2"]
+    cs["RedeemP2TRInputSize"], cs["RedeemNestedP2WPKHInputSize"] = P["C3"], P["C4"]
+    return dict(consts=cs, wround=P["R"], relay=consts["DefaultRelayFeePerKb"], divisor=D, vcc=P["vcc"],
+                vcc_note="probe: one change output adds %d to EstimateVirtualSize at 252 outputs (%d at 251)" % (d, d251),
+                init=list(hits[0]), nprobes=len(est_q) + len(fee_q) + 1)
+
+
+# ------------------------------------------------------------------ rendering
+
+def render(f, source_line):
+    init = f["init"]
     lines = ["(** GENERATED by lib/extract_c07.py from wallet/txsizes/size.go, wallet/txrules/rules.go and",
              "    wallet/txauthor/author.go - do not edit; bin/extract rewrites it from the current source. *)",
+             "(* facts source: %s *)" % source_line,
              "From Coq Require Import ZArith.",
              "Local Open Scope Z_scope.",
              ""]
-    names = {
-        "RedeemP2PKHSigScriptSize": "redeem_p2pkh_sig_script_size",
-        "P2PKHPkScriptSize": "p2pkh_pk_script_size",
-        "RedeemP2PKHInputSize": "redeem_p2pkh_input_size",
-        "P2PKHOutputSize": "p2pkh_output_size",
-        "P2WPKHPkScriptSize": "p2wpkh_pk_script_size",
-        "P2WPKHOutputSize": "p2wpkh_output_size",
-        "RedeemP2WPKHScriptSize": "redeem_p2wpkh_script_size",
-        "RedeemP2WPKHInputSize": "redeem_p2wpkh_input_size",
-        "P2TRPkScriptSize": "p2tr_pk_script_size",
-        "P2TROutputSize": "p2tr_output_size",
-        "RedeemP2TRScriptSize": "redeem_p2tr_script_size",
-        "RedeemP2TRInputSize": "redeem_p2tr_input_size",
-        "NestedP2WPKHPkScriptSize": "nested_p2wpkh_pk_script_size",
-        "RedeemNestedP2WPKHScriptSize": "redeem_nested_p2wpkh_script_size",
-        "RedeemNestedP2WPKHInputSize": "redeem_nested_p2wpkh_input_size",
-        "RedeemP2WPKHInputWitnessWeight": "redeem_p2wpkh_input_witness_weight",
-        "RedeemP2TRInputWitnessWeight": "redeem_p2tr_input_witness_weight",
-    }
-    for n in need:
-        lines.append("Definition %s : Z := %d.  (* txsizes.%s *)" % (names[n], consts[n], n))
+    for n in NEED:
+        lines.append("Definition %s : Z := %d.  (* txsizes.%s *)" % (NAMES[n], f["consts"][n], n))
     lines += ["",
-              "(* (witnessWeight + %d) / blockchain.WitnessScaleFactor in EstimateVirtualSize *)" % wround,
-              "Definition witness_round_add : Z := %d." % wround,
+              "(* (witnessWeight + %d) / blockchain.WitnessScaleFactor in EstimateVirtualSize *)" % f["wround"],
+              "Definition witness_round_add : Z := %d." % f["wround"],
               "",
               "(* txrules.DefaultRelayFeePerKb; divisor in FeeForSerializeSize *)",
-              "Definition default_relay_fee_per_kb : Z := %d." % relay,
-              "Definition fee_divisor : Z := %d." % divisor,
+              "Definition default_relay_fee_per_kb : Z := %d." % f["relay"],
+              "Definition fee_divisor : Z := %d." % f["divisor"],
               "",
-              "(* EstimateVirtualSize takes the compact-size of the output count over `%s` *)" % vargs[1],
-              "Definition varint_counts_change : bool := %s." % ("true" if vcc else "false"),
+              "(* %s *)" % f["vcc_note"],
+              "Definition varint_counts_change : bool := %s." % ("true" if f["vcc"] else "false"),
               "",
               "(* initial guess of NewUnsignedTransaction: EstimateVirtualSize(%d, %d, %d, %d, outputs, changeSize)"
               % tuple(init),
@@ -197,4 +403,24 @@ def main(repo, outdir, write_if_changed):
               "Definition init_guess_p2wpkh : Z := %d." % init[2],
               "Definition init_guess_nested : Z := %d." % init[3],
               ""]
-    write_if_changed(os.path.join(outdir, "TxsizesConsts.v"), "\n".join(lines))
+    return "\n".join(lines)
+
+
+def sanitize(msg):
+    return re.sub(r"\s+", " ", msg).replace("(*", "( *").replace("*)", "* )")
+
+
+def main(repo, outdir, write_if_changed):
+    try:
+        facts = source_facts(repo)
+        source_line = "source (shape of size.go / rules.go / author.go recognised)"
+    except (ExtractError, OSError) as e1:
+        # the path of the scratch repository is not part of the fact
+        why = sanitize(str(e1).replace(repo.rstrip("/") + "/", ""))
+        try:
+            facts = probe_facts(repo)
+        except (ExtractError, OSError, ValueError, KeyError, subprocess.SubprocessError) as e2:
+            raise ExtractError("source shape not recognised (%s) AND probing the built code failed (%s)" % (e1, e2))
+        source_line = ("probe (source shape not recognised: %s; facts determined by %d calls of the code built from the "
+                       "repository, harness/cmd/extract-c07)" % (why[:300], facts["nprobes"]))
+    write_if_changed(os.path.join(outdir, "TxsizesConsts.v"), render(facts, source_line))
